@@ -2,7 +2,9 @@ package chunkparser
 
 import (
 	"encoding/binary"
+	"fmt"
 	"io"
+	"math"
 )
 
 // MP4ChunkParser is a parser for fragmented mp4 content.
@@ -56,6 +58,9 @@ func (p *MP4ChunkParser) Parse() error {
 		}
 		size := binary.BigEndian.Uint32(p.buf[nextBoxStart : nextBoxStart+4])
 		currBox = string(p.buf[nextBoxStart+4 : nextBoxStart+8])
+		if size < 8 || uint64(nextBoxStart)+uint64(size) > math.MaxUint32 {
+			return fmt.Errorf("invalid size %d of box %q at offset %d", size, currBox, nextBoxStart)
+		}
 		nextBoxStart += size
 		switch currBox {
 		case "moov":
